@@ -19,7 +19,7 @@ import (
 )
 
 // Val is a sample value: Kind 0 float (Bits), 1 integer histogram (ID), 2 float histogram (ID).
-// Histogram ID 0 is the staleness-marker histogram {Sum: StaleNaN}.
+// Histogram ID 0 is the staleness-marker histogram {Sum: StaleNaN}; ID < 0 is a histogram with custom buckets (NHCB).
 type Val struct {
 	Kind int    `json:"k"`
 	Bits uint64 `json:"b,omitempty"`
@@ -105,12 +105,20 @@ func mkHist(id int64) *histogram.Histogram {
 	if id == 0 {
 		return &histogram.Histogram{Sum: math.Float64frombits(value.StaleNaN)}
 	}
+	if id < 0 { // custom buckets (NHCB)
+		return &histogram.Histogram{Schema: histogram.CustomBucketsSchema, Count: uint64(-id), Sum: float64(-id),
+			PositiveSpans: []histogram.Span{{Offset: 0, Length: 1}}, PositiveBuckets: []int64{-id}, CustomValues: []float64{1}}
+	}
 	return &histogram.Histogram{Count: uint64(id), ZeroCount: uint64(id), Sum: float64(id), ZeroThreshold: 0.001}
 }
 
 func mkFHist(id int64) *histogram.FloatHistogram {
 	if id == 0 {
 		return &histogram.FloatHistogram{Sum: math.Float64frombits(value.StaleNaN)}
+	}
+	if id < 0 { // custom buckets (NHCB)
+		return &histogram.FloatHistogram{Schema: histogram.CustomBucketsSchema, Count: float64(-id), Sum: float64(-id),
+			PositiveSpans: []histogram.Span{{Offset: 0, Length: 1}}, PositiveBuckets: []float64{float64(-id)}, CustomValues: []float64{1}}
 	}
 	return &histogram.FloatHistogram{Count: float64(id), ZeroCount: float64(id), Sum: float64(id), ZeroThreshold: 0.001}
 }
@@ -162,6 +170,9 @@ func query(db *tsdb.DB) ([]SeriesObs, error) {
 			case chunkenc.ValHistogram:
 				t, h := it.AtHistogram(nil)
 				id := int64(h.Count)
+				if h.UsesCustomBuckets() {
+					id = -id
+				}
 				if value.IsStaleNaN(h.Sum) {
 					id = 0
 				}
@@ -169,6 +180,9 @@ func query(db *tsdb.DB) ([]SeriesObs, error) {
 			case chunkenc.ValFloatHistogram:
 				t, h := it.AtFloatHistogram(nil)
 				id := int64(h.Count)
+				if h.UsesCustomBuckets() {
+					id = -id
+				}
 				if value.IsStaleNaN(h.Sum) {
 					id = 0
 				}
